@@ -89,65 +89,83 @@ pub fn c12_float_counter_flush_twice() {
     std::mem::forget(c);
 }
 
-/// Local histogram: 0-2 pending observations, then one symbolic operation, then the final state
-/// of the shared histogram is compared (count, bit-exact sum, bucket).
-#[cfg_attr(kani, kani::proof, kani::unwind(4))]
-pub fn c12_local_histogram_one_op() {
+/// Local histogram scenario with `n` pending observations (any f64) followed by operation `op`
+/// (control flow concrete, data symbolic): 0 flush twice, 1 clear then flush, 2 clone + observe on
+/// the clone + drop the clone, 3 direct observe on the shared histogram, 4 drop.
+fn local_hist_case(n: u8, op: u8) {
     let h = hist1();
     let l = h.local();
     let (v1, v2, w) = (any_f64(), any_f64(), any_f64());
-    let n = any_u8_below(3);
     let mut cnt: u64 = 0;
     let mut sum = 0.0;
     let mut b: u64 = 0;
     if n >= 1 { l.observe(v1); cnt += 1; sum += v1; if v1 <= 1.0 { b += 1; } }
     if n >= 2 { l.observe(v2); cnt += 1; sum += v2; if v2 <= 1.0 { b += 1; } }
     assert!(h.get_sample_count() == 0, "C12 local observations do not reach the shared histogram before a flush");
-    assert!(l.get_sample_count() == cnt && f64_same(l.get_sample_sum(), sum));
-    let op = any_u8_below(5);
+    assert!(l.get_sample_count() == cnt && f64_same(l.get_sample_sum(), sum), "C12 local histogram accumulates its own observations");
     // expected shared state after the operation
     let (mut ec, mut es, mut eb): (u64, f64, u64) = (0, 0.0, 0);
-    let mut dropped = false;
-    match op {
-        0 => { l.flush(); if cnt > 0 { ec = cnt; es = 0.0 + sum; eb = b; } l.flush(); }
-        1 => { l.clear(); l.flush(); }
-        2 => {
-            let l2 = l.clone();
-            assert!(l2.get_sample_count() == 0 && l2.get_sample_sum() == 0.0, "C12 a clone starts empty");
-            assert!(l.get_sample_count() == cnt, "C12 cloning does not disturb the original");
-            l2.observe(w);
-            drop(l2); // dropping a local histogram flushes it
-            ec = 1; es = 0.0 + (0.0 + w); eb = (w <= 1.0) as u64;
-        }
-        3 => { h.observe(w); ec = 1; es = 0.0 + w; eb = (w <= 1.0) as u64; }
-        _ => { dropped = true; if cnt > 0 { ec = cnt; es = 0.0 + sum; eb = b; } }
+    if op == 0 {
+        l.flush();
+        if cnt > 0 { ec = cnt; es = 0.0 + sum; eb = b; }
+        l.flush();
+        assert!(l.get_sample_count() == 0, "C12 flush leaves the local histogram empty");
+    } else if op == 1 {
+        l.clear();
+        l.flush();
+        assert!(l.get_sample_count() == 0, "C12 clear leaves the local histogram empty");
+    } else if op == 2 {
+        let l2 = l.clone();
+        assert!(l2.get_sample_count() == 0 && l2.get_sample_sum() == 0.0, "C12 a clone starts empty");
+        assert!(l.get_sample_count() == cnt, "C12 cloning does not disturb the original");
+        l2.observe(w);
+        drop(l2); // dropping a local histogram flushes it
+        ec = 1; es = 0.0 + (0.0 + w); eb = (w <= 1.0) as u64;
+        assert!(l.get_sample_count() == cnt, "C12 other handles do not disturb pending local data");
+    } else if op == 3 {
+        h.observe(w);
+        ec = 1; es = 0.0 + w; eb = (w <= 1.0) as u64;
+        assert!(l.get_sample_count() == cnt, "C12 direct updates do not disturb pending local data");
+    } else if cnt > 0 {
+        ec = cnt; es = 0.0 + sum; eb = b;
     }
-    if dropped {
-        drop(l);
-    } else {
-        if op != 0 && op != 1 {
-            assert!(l.get_sample_count() == cnt, "C12 other handles do not disturb pending local data");
-        } else {
-            assert!(l.get_sample_count() == 0, "C12 flush / clear leave the local histogram empty");
-        }
-        std::mem::forget(l);
-    }
-    let m = crate::core::Metric::metric(&h);
-    let hp = m.get_histogram();
-    assert!(hp.get_sample_count() == ec, "C12 shared count = direct observations + flushed batches");
-    assert!(f64_same(hp.get_sample_sum(), es), "C12 shared sum = direct observations + flushed batches");
-    assert!(hp.get_bucket()[0].cumulative_count() == eb, "C12 shared buckets = direct observations + flushed batches");
-    vcover!(op == 4 && cnt == 2, "c12.hist: drop flushes two pending observations");
-    vcover!(op == 0 && cnt == 0, "c12.hist: empty flush");
-    std::mem::forget(m);
+    if op == 4 { drop(l); } else { std::mem::forget(l); }
+    let p = h.core.proto();
+    assert!(p.get_sample_count() == ec, "C12 shared count = direct observations + flushed batches");
+    assert!(f64_same(p.get_sample_sum(), es), "C12 shared sum = direct observations + flushed batches");
+    assert!(p.get_bucket()[0].cumulative_count() == eb, "C12 shared buckets = direct observations + flushed batches");
+    std::mem::forget(p);
     std::mem::forget(h);
+}
+/// Local histogram: flush (twice) and clear, with 0, 1 and 2 pending observations.
+#[cfg_attr(kani, kani::proof, kani::unwind(4))]
+pub fn c12_local_histogram_flush_and_clear() {
+    local_hist_case(0, 0);
+    local_hist_case(1, 0);
+    local_hist_case(2, 0);
+    local_hist_case(2, 1);
+}
+/// Local histogram: clone starts empty and flushes on drop; direct observes are independent.
+#[cfg_attr(kani, kani::proof, kani::unwind(4))]
+pub fn c12_local_histogram_clone_and_direct() {
+    local_hist_case(1, 2);
+    local_hist_case(2, 3);
+}
+/// Local histogram: dropping flushes (0, 1, 2 pending observations).
+#[cfg_attr(kani, kani::proof, kani::unwind(4))]
+pub fn c12_local_histogram_drop_flushes() {
+    local_hist_case(0, 4);
+    local_hist_case(1, 4);
+    local_hist_case(2, 4);
 }
 
 pub fn dispatch(name: &str) -> Option<fn()> {
     Some(match name {
         "c12_int_counter_two_locals_two_ops" => c12_int_counter_two_locals_two_ops,
         "c12_float_counter_flush_twice" => c12_float_counter_flush_twice,
-        "c12_local_histogram_one_op" => c12_local_histogram_one_op,
+        "c12_local_histogram_flush_and_clear" => c12_local_histogram_flush_and_clear,
+        "c12_local_histogram_clone_and_direct" => c12_local_histogram_clone_and_direct,
+        "c12_local_histogram_drop_flushes" => c12_local_histogram_drop_flushes,
         _ => return None,
     })
 }
